@@ -632,6 +632,27 @@ theorem fmod_eq_tmod_adjust (a b : Int) (hb : b ≠ 0) :
   · rw [Int.mul_sub, Int.mul_one]; omega
   · rfl
 
+/-! ## the repaired `lax.round(AWAY_FROM_ZERO)` lowering, as a rational -/
+
+theorem mkRat_half : mkRat 1 2 = (1 / 2 : ℚ) := by rw [Rat.mkRat_eq_div]; norm_num
+theorem mkRat_one : mkRat 1 1 = (1 : ℚ) := by rw [Rat.mkRat_eq_div]; norm_num
+
+/-- `Sign(x) * Where(|x| - Floor|x| >= 1/2, Floor|x| + 1, Floor|x|)` over ℚ is `roundAwayFix`. -/
+theorem roundAwayFix_cast (x : ℚ) :
+    ratSign x * (if (if x < 0 then -x else x) - ((ratFloor (if x < 0 then -x else x) : ℤ) : ℚ) ≥ 1 / 2
+        then ((ratFloor (if x < 0 then -x else x) : ℤ) : ℚ) + 1 else ((ratFloor (if x < 0 then -x else x) : ℤ) : ℚ))
+      = ((roundAwayFix x : ℤ) : ℚ) := by
+  simp only [roundAwayFix, ratSign, ratFloor]
+  by_cases hp : x > 0
+  · have hn : ¬ x < 0 := by linarith
+    simp only [hp, hn, if_true, if_false]
+    split_ifs <;> push_cast <;> ring
+  · by_cases hn : x < 0
+    · simp only [hp, hn, if_true, if_false]
+      split_ifs <;> push_cast <;> ring
+    · simp only [hp, hn, if_false]
+      split_ifs <;> push_cast <;> ring
+
 /-! ## automation shared by the regenerated-recipe obligations (`GenProps/C01*.lean`) -/
 
 /-- Unfold the evaluation of a concrete recipe on symbolic inputs into plain arithmetic. -/
